@@ -38,12 +38,23 @@ Theorem C07_no_spurious : forall b o, sop_ok o = true ->
 Proof. exact store_fits. Qed.
 Print Assumptions C07_no_spurious.
 
-(* and one that exceeds it is refused *)
-Theorem C07_overflow : forall b o, sop_ok o = true ->
+(* and one that exceeds it is refused.  The builder must itself be within the limits (every builder
+   produced by stores is, C07_capacity): without that the statement is false, because store_ref never
+   looks at the bit count and store_bit(s) never looks at the reference count
+   (BuilderCap.cap_overflow_cex1 / cap_overflow_cex2). *)
+Theorem C07_overflow : forall b o,
+  (length (b_bits b) <= 1023)%nat -> (length (b_refs b) <= 4)%nat -> sop_ok o = true ->
   (1023 < length (b_bits b) + need_bits o)%nat \/ (4 < length (b_refs b) + need_refs o)%nat ->
   exists e, sstep b o = Err e.
 Proof. exact store_overflows. Qed.
 Print Assumptions C07_overflow.
+
+(* the same for every builder reachable from the empty one *)
+Theorem C07_overflow_reachable : forall ops b o, srun b_empty ops = Ok b -> sop_ok o = true ->
+  (1023 < length (b_bits b) + need_bits o)%nat \/ (4 < length (b_refs b) + need_refs o)%nat ->
+  exists e, sstep b o = Err e.
+Proof. exact store_overflows_reachable. Qed.
+Print Assumptions C07_overflow_reachable.
 
 (* a consuming read returns only what it actually consumed: the value is a function of the consumed
    prefix, and that prefix is really there - never fabricated, never truncated *)
